@@ -15,6 +15,7 @@ import (
 	"verif/mc/sched"
 	"verif/ref"
 	"verif/run"
+	"verif/spec"
 	"verif/zx"
 )
 
@@ -77,8 +78,24 @@ func genRefSeqs(maxLen int, emit func(string)) {
 	rec("", 1)
 }
 
+// refSeqBatch: text fields with doc values and stored values, two thesauri, and
+// (under the vectors tag) a vector field: every cache of a segment is in play between
+// reference operations.
+func refSeqBatch() spec.Batch {
+	b := spec.Batch{}
+	b.Docs = append(b.Docs, enum.TextMenu()[2].Docs...)
+	for i, k := range []int{3, 11} {
+		d := enum.SynDoc(i, k)
+		d.ID = fmt.Sprintf("syn%d", i)
+		b.Docs = append(b.Docs, d)
+	}
+	b.Docs = append(b.Docs, refVecDocs()...)
+	return b
+}
+
 func runRefSeq(c RefCase, a *run.Acc) {
-	batch := enum.TextMenu()[2]
+	batch := refSeqBatch()
+	prepareVecBatch(nil)
 	exp := ref.FromBatch(batch)
 	mem, _, err := zx.Build(batch, 1026)
 	if err != nil {
@@ -123,6 +140,14 @@ func runRefSeq(c RefCase, a *run.Acc) {
 			}
 			if d := zx.Compare(exp, got, ref.All); d != "" {
 				fail("read-mismatch", fmt.Sprintf("after %q (%d references held):\n%s", after, count, d))
+				return false
+			}
+			if m := checkThesauri(seg, exp, a, "opened segment"); m != "" {
+				fail("read-mismatch", fmt.Sprintf("after %q (%d references held): %s", after, count, m))
+				return false
+			}
+			if m := vecBuildOracle(seg, exp); m != "" {
+				fail("read-mismatch", fmt.Sprintf("after %q (%d references held): %s", after, count, m))
 				return false
 			}
 			return true
@@ -321,7 +346,7 @@ func init() {
 	run.Register(&run.Def{
 		ID:          "C20",
 		Level:       "model_checking",
-		Rule:        "(a) sequential explicit-state exploration on a real opened segment: EVERY sequence of AddRef / DecRef / Close events of length <= 9 (quick) / 11 (thorough) that keeps the count in [1,4] until its last event; state key = (reference count read through the verif hook, file mapped according to /proc/self/maps, descriptor open according to /proc/self/fd); in every state with a positive count the complete dump of the segment must equal the reference, the mapping and descriptor must be present; after the last event both must be gone and every release call must have returned nil; a premature unmap is a SIGSEGV of the worker and is attributed to the history. (b) closing an in-memory segment (after using its caches) returns nil, leaves a segment built before and one built after undisturbed and, under the vectors tag, leaves no native index alive. (c) stateless model checking under the controlled scheduler: 1 holder (all interleavings), 2 holders (preemption bound 3 quick / 5 thorough) and 3 holders (preemption bound 2 quick / 3 thorough), each handed a reference, doing read; AddRef; DecRef; read; DecRef, against the owner's read; Close, interleaved at the segment's lock points; every read while holding a reference must give the sequential answer, every release returns nil, and at the end the count is 0 and mapping and descriptor are gone; plus a free-running -race pass of the same bodies.",
+		Rule:        "(a) sequential explicit-state exploration on a real opened segment: EVERY sequence of AddRef / DecRef / Close events of length <= 9 (quick) / 11 (thorough) that keeps the count in [1,4] until its last event; state key = (reference count read through the verif hook, file mapped according to /proc/self/maps, descriptor open according to /proc/self/fd); the segment has text fields with doc values and stored values, two thesauri and (vectors tag) a vector field, so every cache is in play; in every state with a positive count the complete dump, every thesaurus lookup and (vectors tag) exact vector searches must equal the reference, the mapping and descriptor must be present; after the last event both must be gone and every release call must have returned nil; a premature unmap is a SIGSEGV of the worker and is attributed to the history. (b) closing an in-memory segment (after using its caches) returns nil, leaves a segment built before and one built after undisturbed and, under the vectors tag, leaves no native index alive. (c) stateless model checking under the controlled scheduler: 1 holder (all interleavings), 2 holders (preemption bound 3 quick / 5 thorough) and 3 holders (preemption bound 2 quick / 3 thorough), each handed a reference, doing read; AddRef; DecRef; read; DecRef, against the owner's read; Close, interleaved at the segment's lock points; every read while holding a reference must give the sequential answer, every release returns nil, and at the end the count is 0 and mapping and descriptor are gone; plus a free-running -race pass of the same bodies.",
 		Assumptions: []string{"a holder only takes a new reference while it already holds one (references are handed over by an owner)", "reads of a closed in-memory segment are not part of the property and are not issued"},
 		Bounds:      map[string]string{"quick": "sequences of length <= 9; 1 holder unbounded, 2 holders bound 3, 3 holders bound 2; race pass", "thorough": "sequences of length <= 11; 1 holder unbounded, 2 holders bound 5, 3 holders bound 3; race pass"},
 		Flavours:    func(string) []string { return []string{"plain", "vec", "inst", "race"} },
